@@ -291,6 +291,8 @@ class C03(core.Check):
             env = core.san_env(jd)
             env["ASAN_OPTIONS"] = core.ASAN_OPTS.replace("detect_stack_use_after_return=1", "detect_stack_use_after_return=0") + ":quarantine_size_mb=8"
             env["UBSAN_OPTIONS"] = "print_stacktrace=1:halt_on_error=1"
+            if j % 4 == 3:
+                env["FZ_DEBUG_LOG"] = "1"     # a quarter of the jobs with the library logging at DEBUG level (to /dev/null)
             cmd = [ctx["fz"], "-runs=%d" % runs, "-seed=%d" % (self.seed * 100 + j + 1), "-max_len=65536", "-timeout=25", "-rss_limit_mb=4096",
                    "-artifact_prefix=" + jd + "/", "-print_final_stats=1", "-close_fd_mask=0", "-max_total_time=%d" % (150 if self.quick else 3000), corpus]
             lf = open(os.path.join(jd, "log"), "wb")
